@@ -32,6 +32,9 @@ type Spec struct {
 	// PeekIdx read through GetReadSeeker): its cached handle is not at offset 0
 	Peek    int `json:"peek,omitempty"`
 	PeekIdx int `json:"peek_idx,omitempty"`
+	// UsedContext: the DiffContext has written a patch for another pair before (the new build against
+	// itself); only its exported target fields are changed for the diff under test
+	UsedContext bool `json:"used_context,omitempty"`
 }
 
 // GenComp draws a compression setting over all registered algorithms and the
@@ -89,6 +92,13 @@ func check(s Spec) h.Result {
 		}
 		dopts.TargetSig = prev.Sig
 		cl = append(cl, "old-signature:read-back-from-a-signature-stream")
+	}
+	if s.UsedContext {
+		if dopts == nil {
+			dopts = &h.DiffOpts{}
+		}
+		dopts.UsedBefore = true
+		cl = append(cl, "differ:context-used-for-another-pair-before")
 	}
 	df, err := h.Diff(od, nd, s.Comp, dopts)
 	if err != nil {
@@ -165,6 +175,7 @@ var prop = h.Prop[Spec]{
 		}
 		s.SigFile = rapid.IntRange(0, 3).Draw(t, "old-signature-from-stream") == 0
 		s.Stale = rapid.IntRange(0, 4).Draw(t, "stale-output") == 0
+		s.UsedContext = rapid.IntRange(0, 4).Draw(t, "used-diff-context") == 0
 		if rapid.IntRange(0, 3).Draw(t, "used-old-pool") == 0 {
 			s.Peek = rapid.SampledFrom([]int{1, 4113, 1 << 30}).Draw(t, "peek-bytes")
 			s.PeekIdx = rapid.IntRange(0, 7).Draw(t, "peek-idx")
